@@ -55,6 +55,13 @@ def write_variant(ds, d, rng, identity, conflict=False):
             st = gen.default_text_style(inp, None)
             st["shuffle_rows"] = not identity
             st["shuffle_cols"] = not identity
+            # the same coordinates written the other documented ways (date + hour columns, 'offset', 'id'); drawn from a
+            # separate stream so that the other draws stay what they were
+            r2 = random.Random("C02-textstyle-%s-%s-%d" % (inp["name"], identity, len(inp["cells"])))
+            if all(t % 3600 == 0 for t in inp["times"]) and r2.random() < 0.5:
+                st["time"] = "date+hour"
+            st["lead"] = r2.choice(["leadtime", "offset"])
+            st["loc"] = r2.choice(["location", "id"])
             if not identity and conflict and len(inp["locs"]) > 1:
                 # some rows of one station disagree on its latitude (verif warns, keeps the first): values are still matched by id
                 st["conflict"] = {gen.fnum(rng.choice(inp["locs"])[0]): 0.5}
